@@ -14,6 +14,7 @@ import (
 	"github.com/open-policy-agent/opa/rego"
 	"pgregory.net/rapid"
 	"verifharness/ev"
+	m "verifharness/model"
 )
 
 type c10Op struct {
@@ -39,9 +40,20 @@ func genC10(t *rapid.T) c10Case {
 	np := rapid.IntRange(1, 3).Draw(t, "profiles")
 	for i := 0; i < np; i++ {
 		text, graphs, _ := genProfileAndGraphs(t, fmt.Sprintf("c10-%d", i), rapid.IntRange(1, 2).Draw(t, "graphs"))
+		// profiles of one schedule may bind the same prefix to different namespaces (and declare a prefix another
+		// profile uses undeclared): per-compilation state must not leak between concurrent compilations
+		ns := m.NS
+		if rapid.Bool().Draw(t, "otherNamespace") {
+			ns = fmt.Sprintf("http://ex.org/other%d#", i)
+			text = strings.ReplaceAll(text, m.NS, ns)
+		}
+		if rapid.IntRange(0, 2).Draw(t, "declareZZ") == 0 {
+			text = strings.Replace(text, "prefixes:\n", "prefixes:\n  zz: \""+ns+"\"\n", 1)
+		}
 		c.Profiles = append(c.Profiles, text)
 		for _, g := range graphs {
-			c.Docs = append(c.Docs, g.JSONLD(genLDOpts(t, len(g.Nodes))))
+			doc := g.JSONLD(genLDOpts(t, len(g.Nodes)))
+			c.Docs = append(c.Docs, strings.ReplaceAll(doc, m.NS, ns))
 		}
 	}
 	if rapid.Bool().Draw(t, "badDoc") {
